@@ -36,6 +36,7 @@ def generate(seed, tier, index):
     sc = c06.gen_session(seed, tier, CMD_WEIGHTS, ncmd_range=(2, 9), initial_filter_p=0.3, pid=ID)
     rng = random.Random('%d/gen17' % seed)
     sc['config']['suppress'] = rng.random() < 0.2
+    sc['config']['colour_first'] = rng.random() < 0.5
     if rng.random() < 0.15:
         m = R.gen_matcher(rng, R.Vocab(L.build_stream(sc, rig.REPO), {0: 'A'}), p_const=0.0)
         sc['config']['break'] = R.render(m)
@@ -139,9 +140,15 @@ def execute(sc):
     V = common.Viol()
     st = L.build_stream(sc, rig.REPO)
     steps = faulty_steps(sc, st, V.counters)
-    rp = run_one(sc, steps, False)
+    # which of the two sessions runs first is part of the scenario (anything remembered between sessions in one
+    # process - a cached rendering, say - must not leak from one colour setting into the other)
+    if sc['config'].get('colour_first'):
+        rc = run_one(sc, steps, True)
+        rp = run_one(sc, steps, False)
+    else:
+        rp = run_one(sc, steps, False)
+        rc = run_one(sc, steps, True)
     ctl_p = rp.controller if hasattr(rp, 'controller') else None
-    rc = run_one(sc, steps, True)
     ctl_c = rc.controller if hasattr(rc, 'controller') else None
     plain = streams(rp.rec)
     colored = streams(rc.rec)
